@@ -125,6 +125,8 @@ def model_requests(case, obs):
             impl = None
         return [{"op": "sqlite_history", "views": case["views"], "steps": case["steps"], "init": [], "impl": impl}]
     if k == "crash":
+        if "skipped" in obs:
+            return []
         return [{"op": "sqlite_crash", "views": case["views"], "steps": case["steps"], "init": [],
                  "acked": obs["acked"], "final": obs["final"]}]
     if k == "fn":
@@ -148,6 +150,8 @@ def judge(case, obs, resps):
     k = case.get("kind", "history")
     if "harness_exception" in obs:
         return _infra(case, obs)
+    if "skipped" in obs:
+        return Judgement(case, True, True, None, kind="crash/syscall/skipped-no-strace", nontrivial=False)
     if k == "nonfinite":
         ok = bool(obs.get("ok"))
         return Judgement(case, ok, True, None if ok else obs, kind="nonfinite", nontrivial=False,
